@@ -67,8 +67,12 @@ def _both_reference(kind):
     return _REF[kind]
 
 
+# directory names are free text: brackets, stars and question marks (what glob takes for patterns), blanks
+PATHNAMES = ["compose-dir", "Foo-1.0-20240102.0[nightly]", "a star * and ? mark"]
+
+
 def materialise(case, root):
-    path = os.path.join(root, "compose-dir")
+    path = os.path.join(root, PATHNAMES[0 if case.get("http") else case.get("pathname", 0)])
     st = case["st"]
     if st["R"] == "absent":
         return path
@@ -117,6 +121,8 @@ def evaluate(case):
                                                                 case["cibad"], case["slash"]) + (" reversed-access" if case.get("rev") else "")
     if case.get("link", "none") != "none":
         what += " given-as-symlink(%s target)" % case["link"]
+    if case.get("pathname") and not case.get("http"):
+        what += " directory-named(%r)" % PATHNAMES[case["pathname"]]
     try:
         path = materialise(case, root)
         arg = path + ("/" if case["slash"] else "")
@@ -272,6 +278,8 @@ def run(ctx):
     mode = "quick" if ctx.quick else "full"
     ctx.require_ok(ctx.tlc("ComposeLayout", cfg_text=core.cfg_with("ComposeLayout.cfg", [], {"Mode": mode}), on_emit=cases.append,
                            constants={"Mode": mode}))
+    for i, c in enumerate(cases):
+        c["pathname"] = i % len(PATHNAMES)
     ctx.exhaustive = True
     ctx.evaluate(evaluate, cases, label="layout", chunk=40)
 
